@@ -169,6 +169,11 @@ func (w *world) execMigrate(o op) bool {
 		w.cov("migrate|back-to-a-gpu-that-hosted-the-page-before")
 	}
 	w.cov("migrate|allocator=" + w.alloc())
+	if w.bufs[o.Migs[0].Buf].ctx == o.C {
+		w.cov("migrate|process-named-via=allocating-context")
+	} else {
+		w.cov("migrate|process-named-via=sibling")
+	}
 	w.rec.Count("migrated_pages", int64(len(o.Migs)))
 
 	var fresh []uint64
